@@ -6,7 +6,9 @@
    The API contract (free / set_counter_value only on live ids, clock and cool-down within
    i64 milliseconds, u64 values) is the boolean [contract_step]; judging stops at the first
    operation that breaks it. *)
-Require Import V.Base.MachineInt V.Generated.GenConsts V.Model.Counters.
+Require Import V.Base.MachineInt.
+Require Import V.Generated.GenConsts.
+Require Import V.Model.Counters.
 Open Scope Z_scope.
 
 Definition memb (x : Z) (l : list Z) : bool := existsb (Z.eqb x) l.
